@@ -230,9 +230,11 @@ where
     node: Node<'tree, D>,
     env: &mut Cow<MetaVarEnv<'tree, D>>,
   ) -> Option<Node<'tree, D>> {
+    // the negated matcher works on a scratch env: whatever it binds never leaves `not`
+    let mut scratch = Cow::Borrowed(env.as_ref());
     self
       .not
-      .match_node_with_env(node.clone(), env)
+      .match_node_with_env(node.clone(), &mut scratch)
       .xor(Some(node))
   }
 }
